@@ -1,6 +1,6 @@
 """C05 — access modes obey one consistent algebra in every representation."""
 import os, json, collections
-import vlib
+import vlib, world
 
 
 def nontrivial(v):
@@ -55,12 +55,27 @@ def run(ctx):
     for k, what in divs:
         ctx.divergences.append({"vector": brief(vectors[k - 1]), "what": what})
 
+    # ---- history part: whole request histories in the real server; every {pres what=acs} notice a session receives inside a
+    # group topic, applied to the subject's pre-step permissions, must give the permissions the live topic holds after the step
+    users, sess, topics = world.population(3, 2)
+    kinds = ["NewGrp", "Sub", "Leave", "SetSelf", "SetOther", "DelSub", "Reload"]
+    cw = world.mc_consts(users, sess, topics, world.DEV_BUILT, ["-", "N", "JR", "JRA", "JRASO", "JRWPASDO"],
+                         ["-", "N", "JR", "JRAS", "JRASO", "JRWPASDO"], kinds, ["C05"])
+    behs, _ = world.simulate(ctx, "SimC05", cw, 600 if thorough else 100, 16 if thorough else 14, ctx.seed)
+    bj = world.behaviours_json(behs, users, sess, topics)
+    trace, _ = world.replay(ctx, bj)
+    r3, recs, wfails, wdivs = world.check_traces(ctx, trace, cw, ["C05"])
+    nw = world.report(ctx, recs, wfails, wdivs, "C05")
+    nacs = sum(1 for r in recs for fr in r["frames"].values() for f in fr if f.get("k") == "pres" and f.get("what") == "acs" and f.get("topic") == "g1")
+    vlib.log("history part: %d behaviours, %d steps, %d acs notices followed, %d follower mismatches, %d divergences" % (len(bj), len(recs), nacs, nw, len(wdivs)))
+    ctx.cov["history_part"] = {"behaviours": len(bj), "steps": len(recs), "acs_notices_followed": nacs}
+
     ops = collections.Counter(v["op"] for v in vectors)
     steps = sum(len(v["steps"]) for v in vectors if v["op"] == "tracker")
     nt = sum(1 for v in vectors if nontrivial(v))
     ctx.cov.update({
         "states": r1.distinct + r2.distinct, "transitions": r1.generated + r2.generated,
-        "traces_validated_against_impl": len(vectors),
+        "traces_validated_against_impl": len(vectors) + len(bj),
         "evaluations": len(vectors) - ops["tracker"] + steps, "distinct_nontrivial": nt,
         "rule": "every mode 0..255 through all representations; every string of length<=%d over a 15-char alphabet (8 for length 5) through ParseAcs/UnmarshalText/ApplyDelta/ApplyMutation on 3 targets; %s mode pairs through Delta+ApplyDelta/ApplyMutation; every (old,new) change through the real notifySubChange -> updateAcsFromPresMsg; non-trivial = changes or rejects the target / a!=b / any repr or tracker record" % (maxlen, "all 65536" if thorough else "every 3rd of 65536"),
         "per_op": dict(ops), "tracker_steps": steps, "exhaustive": bool(thorough),
